@@ -3,11 +3,15 @@ lean/MlModel/Model/PipeLib.lean), running a case through the public pipeline API
 interpreter (the oracle, written from the English statements of C08/C12), and case generators.
 
 Case (JSON, directly understood by the Lean driver, model "pipe"):
-  {specs: [spec..], src: {items: [val..], fail: [[index, kind]..], src_ignore: bool, kind: list|seq|gen},
-   ignore: bool, threads: 0|2}
+  {specs: [spec..], src: {items: [val..], fail: [[index, kind]..], src_ignore: bool, kind: list|seq|gen|iter, twice: bool},
+   ignore: bool, threads: 0|1|2|3}
+  (kind: list = the list itself; seq = SequenceDataSource over a random-access sequence (shardable, resumable); gen = a
+  generator (dead after its first raise); iter = a user iterator class that raises for a failing position and can be
+  read further (resumable, NOT shardable); twice: the same record OBJECTS are delivered a second time)
 Values on the wire: null/bool/int/str are themselves, {"l":[..]} list, {"t":[..]} tuple, {"d":{..}} dict.
 Keys: {"n":name} bare string, {"i":k} Key.Index(k), {"p":[seg..]} Key path (str = name, int = Index),
-{"self":1}, {"skip":1}, {"lit":val}; an output key may also be {"dk":[[new_name, key]..]} (dict key).
+{"self":1}, {"skip":1}, {"lit":val}; an output key may also be {"dk":[[record_key, key]..]} (dict key; the record key
+is a bare string or any key object, the second component is the place read in the function's output).
 Key specs: {"one":key} | {"many":[key..]} | (inputs only) {"kw":[[arg_name, key]..]}.
 Specs: select{in,out?,batch} apply{fn?,in,out,fn_batch,batch} assign{keys,fn?,in,fn_batch,batch}
 filter{fn,in} batch{n} sink{is_sink,fn,in} aggregate{has_fn,out}.
@@ -84,9 +88,14 @@ def mk_key(j):
   raise ValueError(f'bad key {j}')
 
 
+def rk_json(n):
+  """the record key of a dict output key item as a key object on the wire"""
+  return {'n': n} if isinstance(n, str) else n
+
+
 def mk_out_key(j):
   if 'dk' in j:
-    return {n: mk_key(k) for n, k in j['dk']}
+    return {(n if isinstance(n, str) else mk_key(n)): mk_key(k) for n, k in j['dk']}
   return mk_key(j)
 
 
@@ -228,6 +237,7 @@ class RecSink:
   def __init__(self, fn):
     self._fn = fn
     self.log = []
+    self.held = []          # the very objects that were written (a sink may keep what it is given)
     self.closed = 0
     self.write_after_close = 0
 
@@ -236,6 +246,14 @@ class RecSink:
     if self.closed:
       self.write_after_close += 1
     self.log.append({'a': [enc(a) for a in args], 'k': {k: enc(v) for k, v in kwargs.items()}})
+    self.held.append((args, kwargs))
+
+  def held_changed(self):
+    """index of the first write whose argument objects no longer read as they did when they were written"""
+    for i, ((args, kwargs), then) in enumerate(zip(self.held, self.log)):
+      if {'a': [enc(a) for a in args], 'k': {k: enc(v) for k, v in kwargs.items()}} != then:
+        return i
+    return None
 
   def close(self):
     self.closed += 1
@@ -267,6 +285,34 @@ class FailingSeq:
   def __getitem__(self, i):
     if isinstance(i, slice):
       return [self[j] for j in range(*i.indices(len(self._items)))]
+    if i in self._fail:
+      raise ERR_TYPES[self._fail[i]](f'cannot read {i}')
+    return self._items[i]
+
+
+class FailingIterable:
+  """An iterable (not a sequence: not shardable) whose iterator raises for a listed position and can be read further."""
+
+  def __init__(self, items, fail):
+    self._items, self._fail = items, dict(fail)
+
+  def __iter__(self):
+    return _FailingIterator(self._items, self._fail)
+
+
+class _FailingIterator:
+
+  def __init__(self, items, fail):
+    self._items, self._fail, self._i = items, fail, 0
+
+  def __iter__(self):
+    return self
+
+  def __next__(self):
+    if self._i >= len(self._items):
+      raise StopIteration()
+    i = self._i
+    self._i += 1
     if i in self._fail:
       raise ERR_TYPES[self._fail[i]](f'cannot read {i}')
     return self._items[i]
@@ -325,6 +371,8 @@ def make_source(src, items):
     return items
   if kind == 'seq':
     return io.SequenceDataSource(FailingSeq(items, fail), ignore_error=bool(src.get('src_ignore')))
+  if kind == 'iter':
+    return FailingIterable(items, fail)
   if kind == 'gen':
     f = dict(fail)
     def gen():
@@ -394,10 +442,16 @@ def _run_case(case):
   if any(sp['op'] == 'aggregate' and sp['has_fn'] for sp in case['specs']):
     return dict(build=None, agg=True)      # what an aggregate does at run time is property C02
   items = [dec(x) for x in case['src']['items']]
+  if case['src'].get('twice'):
+    items = items + items               # the same record objects once more
   before = copy.deepcopy(items)
   ids = _snapshot(items)
+  caller_ids = {i for _, i in ids}
   source = make_source(case['src'], items)
   out, err, cause, msg = [], None, None, None
+  alias = None
+  written = written_prefixes(case['specs'])
+  shared = [] if heap_plan(case) is not None else None
   try:
     it = p.make().iterate(source, ignore_error=bool(case.get('ignore')))
   except Exception as e:  # pylint: disable=broad-except
@@ -405,6 +459,11 @@ def _run_case(case):
   try:
     for x in it:
       out.append(enc(x))
+      if alias is None and written:
+        alias = aliased_prefix(x, written, caller_ids)
+      if shared is not None:
+        # identity pattern: which containers of the output ARE containers of the caller's data
+        shared.append([list(p) for p, o in container_paths(x) if id(o) in caller_ids])
   except Exception as e:  # pylint: disable=broad-except
     err, msg = err_kind(e), str(e)[:60]
     if e.__cause__ is not None and str(e).startswith('Failed to call'):
@@ -418,10 +477,119 @@ def _run_case(case):
   elif _snapshot(items) != ids:
     mutated = 'caller containers replaced'
   real_sinks = [s for s in sinks if isinstance(s, RecSink)]
+  for k, s in enumerate(real_sinks):
+    if mutated is None and s.held_changed() is not None:
+      mutated = (f'what sink {k} was given at its write {s.held_changed()} reads differently after the run '
+                 '(an object handed to a sink was modified later)')
+  if mutated is None and alias is not None:
+    mutated = ('an output record holds, at a place an assign wrote through, the very container object of a caller '
+               f'record (path {list(alias)}): the assigned value is visible through the caller\'s data')
   threads_alive = _disown_pool_threads() if case.get('threads') else 0
   return dict(build=None, out=out, err=err, cause=cause, msg=msg, threads_alive=threads_alive,
               logs=[s.log for s in real_sinks], closed=[s.closed for s in real_sinks],
-              write_after_close=sum(s.write_after_close for s in real_sinks), mutated=mutated)
+              write_after_close=sum(s.write_after_close for s in real_sinks), mutated=mutated, shared=shared)
+
+
+def container_paths(obj, path=()):
+  """(path, object) of every container inside `obj`, the container itself first (pre-order, insertion order)"""
+  if isinstance(obj, (dict, list, tuple)):
+    yield path, obj
+    for k, v in (obj.items() if isinstance(obj, dict) else enumerate(obj)):
+      yield from container_paths(v, path + (k,))
+
+
+def heap_plan(case):
+  """The heap tie (model `pipeheap`, lean/MlModel/Model/PipeHeap.lean): for chains of sinks and un-batched assigns over
+  a plain list of records, one driver request per source record replaying the output routing of every assign on the
+  cell heap.  The function's outputs are computed here with the named library; an output that IS a container of the
+  current record (a function that returns its argument) is sent as a reference into the record.  -> [request..] or
+  None when the case is outside this domain (or its reference evaluation fails)."""
+  specs, src = case['specs'], case['src']
+  if case.get('threads') or case.get('ignore') or src.get('kind', 'list') != 'list' or src.get('fail'):
+    return None
+  assigns = [sp for sp in specs if sp['op'] == 'assign']
+  if not assigns or any(sp['op'] not in ('assign', 'sink') for sp in specs):
+    return None
+  for sp in assigns:
+    if sp.get('batch') or sp.get('fn_batch') or sp.get('fn') is None:
+      return None
+    ks = [sp['keys']['one']] if 'one' in sp['keys'] else list(sp['keys'].get('many', []))
+    flat = [kk for k in ks for kk in ([rk_json(n) for n, _ in k['dk']] + [s2 for _, s2 in k['dk']] if 'dk' in k else [k])]
+    if not ks or any('self' in k or 'lit' in k for k in flat):
+      return None
+  fns = [make_fn(sp['fn']) for sp in assigns]
+  reqs = []
+  try:
+    for item in src['items']:
+      cur = dec(item)
+      steps = []
+      for sp, fn in zip(assigns, fns):
+        names, in_keys = _norm_in(sp['in'])
+        if any('lit' in k for k in in_keys):
+          return None
+        res = ref_call(fn, names, [ref_get(cur, k) for k in in_keys])
+        outs = list(res) if isinstance(res, tuple) else [res]
+        where = {id(o): p for p, o in container_paths(cur)}
+        wire = [{'at': list(where[id(o)])} if isinstance(o, (dict, list, tuple)) and id(o) in where else enc(o) for o in outs]
+        steps.append({'keys': sp['keys'], 'outs': wire})
+        cur = ref_route(cur, _norm_out(sp['keys']), res)
+      reqs.append(dict(model='pipeheap', record=item, steps=steps))
+  except (CallError, Routing, Undefined):
+    return None
+  return reqs
+
+
+def _key_path(k):
+  """the path of segments a key writes to, or None (SELF / SKIP / Literal)"""
+  if 'n' in k:
+    return (k['n'],)
+  if 'i' in k:
+    return (k['i'],)
+  if 'p' in k:
+    return tuple(k['p'])
+  return None
+
+
+def written_prefixes(specs):
+  """The container positions (paths from the record root, () = the record itself) that lie ON a path written by an
+  assign behind the last record-replacing operator, and that no later key overwrites as a whole.  `assign` works on
+  copies: in an output record none of these containers may be an object of the caller's data."""
+  keys = []
+  for sp in specs:
+    if sp['op'] in ('apply', 'select', 'batch', 'aggregate'):
+      keys = []
+    elif sp['op'] == 'assign':
+      ks = [sp['keys']['one']] if 'one' in sp['keys'] else list(sp['keys'].get('many', []))
+      for k in ks:
+        for kk in ([rk_json(n) for n, _ in k['dk']] if 'dk' in k else [k]):
+          if 'self' in kk:
+            return []
+          p = _key_path(kk)
+          if p is not None:
+            keys.append(p)
+  out = []
+  for t, p in enumerate(keys):
+    for j in range(len(p)):
+      q = p[:j]
+      if not any(len(p2) <= len(q) and q[:len(p2)] == p2 for p2 in keys[t + 1:]) and q not in out:
+        out.append(q)
+  return out
+
+
+def aliased_prefix(rec, prefixes, caller_ids):
+  for q in prefixes:
+    cur = rec
+    for s in q:
+      if isinstance(cur, dict) and s in cur:
+        cur = cur[s]
+      elif isinstance(cur, (list, tuple)) and isinstance(s, int) and 0 <= s < len(cur):
+        cur = cur[s]
+      else:
+        cur = None
+        break
+    if isinstance(cur, (dict, list, tuple)) and id(cur) in caller_ids:
+      return q
+  return None
 
 
 # ----------------------------------------------------------------------------- reference interpreter (oracle)
@@ -539,7 +707,7 @@ def ref_route(base, out_keys, result):
   for k, o in zip(out_keys, outs):
     if 'dk' in k:
       for name, inner in k['dk']:
-        rec = ref_set(rec, {'n': name}, ref_get(o, inner))
+        rec = ref_set(rec, rk_json(name), ref_get(o, inner))
     else:
       rec = ref_set(rec, k, o)
   return rec
@@ -689,6 +857,8 @@ def _reference(case):
   specs, src, ignore = case['specs'], case['src'], bool(case.get('ignore'))
   ops = ref_ops(specs)
   items = [dec(x) for x in src['items']]
+  if src.get('twice'):
+    items = items + items
   fail = dict((i, k) for i, k in src.get('fail', []))
   batched = any(op.b or op.fb for op in ops)
   skippable = lambda kind: ignore and kind in SKIPPABLE
